@@ -275,6 +275,19 @@ def schemes(draw, *, labels="neutral", allow_full=True, max_datasets=4, features
             elif kind == "shuffled":
                 d["global_axis"] = list(draw(st.permutations(list(d["global_axis"]))))
         case["global_axis_order"] = kind
+    if draw(st.integers(0, 5)) == 0:
+        # a longer parameter group: eight fixed, unused rates first, so that the rates the model uses are r.9, r.10, r.11 ... -
+        # definition order and the (string-)sorted order of the labels differ ('r.10' < 'r.9')
+        off = 8
+
+        def shift(label):
+            return f"r.{int(label.split('.')[1]) + off}" if label.startswith("r.") else label
+
+        case["parameters"]["r"] = [0.7] * off + list(case["parameters"]["r"])
+        for m in list(case["megacomplexes"].values()) + list(case["gmegacomplexes"].values()):
+            m["rates"] = [shift(x) for x in m["rates"]]
+        case["free"] = [shift(x) for x in case["free"]]
+        case["rate_label_offset"] = off
     if link_tolerance and draw(st.booleans()):
         # exactly representable tolerances against grid spacings 0.5 / 1 / 1.5 / 2 (sharp decisions), all methods
         case["clp_link_tolerance"] = draw(st.sampled_from([0.25, 0.5, 0.75, 1.0, 1.5]))
@@ -353,7 +366,7 @@ def parameter_dict(case):
     if case.get("expr_param"):
         # a parameter defined by an expression on a free parameter (not used by the model): must follow r.1, must never
         # leak into the caller's parameters, is never handed to the optimiser
-        out["x"] = [["dbl", {"expr": "$r.1 * 2 + 1"}]]
+        out["x"] = [["dbl", {"expr": f"$r.{1 + case.get('rate_label_offset', 0)} * 2 + 1"}]]
     return out
 
 
